@@ -37,7 +37,7 @@ ANCHORS = ['pfhedge.nn.modules.hedger:Hedger.compute_hedge',
            'pfhedge.features.container:FeatureList.get',
            'pfhedge.features.features:Barrier.get']
 DECIDING = ["model_input.declared_order", "feature.step_equals_column", "branches.agree", "prev_hedge.is_last_output", "prev_hedge.zero_at_step0"]
-REQUIRED_BRANCHES = ["prev_hedge.first", "prev_hedge.middle", "option_with_two_underliers", "underlier_on_another_grid", "H>1", "second_call_same_shape", "second_call_other_paths", "barrier.down.nonmonotone", "sibling_hedger_shares_features", "model.overwrites_its_single_input", "feature.step_counted_from_the_end", "feature.steps_out_of_order"]
+REQUIRED_BRANCHES = ["prev_hedge.first", "prev_hedge.middle", "option_with_two_underliers", "underlier_on_another_grid", "H>1", "second_call_same_shape", "second_call_other_paths", "barrier.down.nonmonotone", "sibling_hedger_shares_features", "model.overwrites_its_single_input", "feature.steps_out_of_order"]
 
 
 class TwoUnderlierOption(BaseDerivative, OptionMixin):
@@ -114,17 +114,6 @@ def drv_features(ctx, k, rng):
                                   feature=name, step=i, single=one.reshape(-1)[:6], column=col.reshape(-1)[:6], spot=spot[:3])
                     break
                 ctx.ok(mon, sig=(name, type(stock).__name__, derivative._pfv_kind, str(bdt)))
-                # a step counted from the end (-k = step T-k), where the feature accepts it at all, names the same column
-                try:
-                    neg = ff.get(i - T)
-                except Exception:
-                    neg = None
-                if neg is not None:
-                    ctx.branch("feature.step_counted_from_the_end")
-                    if neg.shape != one.shape or not bit_equal(neg, one):
-                        ctx.violation(mon, "step_from_the_end", f"feature {name}: get({i - T}) differs from get({i}) (T={T}): shape {tuple(neg.shape)} vs {tuple(one.shape)}",
-                                      sig=(name, type(stock).__name__, "negative_step"), feature=name, step=i, from_end=neg.reshape(-1)[:6], direct=one.reshape(-1)[:6])
-                        break
     if k < 3:
         ctx.sample({"driver": "features", "derivative": repr(derivative)[:150], "T": T, "spot_row0": spot[0]})
 
